@@ -84,7 +84,15 @@ fn num(t: &str) -> usize {
 // ---- C16: local_channel::mpsc ----------------------------------------------------------------
 /// runs the ops, appends one observation token per op (separated by ' ') to `out`;
 /// `tok_end(out, start)` is called after every token with the token's start offset.
-fn run16(toks: &[&str], wk: &mut Wakers, out: &mut String, mut tok_end: impl FnMut(&str)) {
+fn run16(toks: &[&str], wk: &mut Wakers, out: &mut String, tok_end: impl FnMut(&str)) {
+    run16v(toks, wk, out, tok_end, false)
+}
+
+/// `sink` = the other public entry points: every send goes through `Sink` (poll_ready, start_send, poll_flush), every drop of a
+/// sender is preceded by `Sink::poll_close` (which must not close anything), every receive is one poll of a fresh `recv()` future
+fn run16v(toks: &[&str], wk: &mut Wakers, out: &mut String, mut tok_end: impl FnMut(&str), sink: bool) {
+    use futures_sink::Sink;
+    use std::future::Future;
     let (tx, rx) = channel::<u64>();
     let mut senders: Vec<Option<Sender<u64>>> = vec![Some(tx)];
     let mut rx: Option<Receiver<u64>> = Some(rx);
@@ -107,19 +115,42 @@ fn run16(toks: &[&str], wk: &mut Wakers, out: &mut String, mut tok_end: impl FnM
                     out.push('!');
                 } else {
                     match b {
-                        b's' => match senders[i].as_ref().unwrap().send(v) {
-                            Ok(()) => out.push_str("ok"),
-                            Err(e) => {
-                                assert_eq!(e.into_inner(), v, "SendError returns the message");
-                                out.push_str("er")
+                        b's' => {
+                            let r = if sink {
+                                let w = wk.get(0).clone();
+                                let mut cx = Context::from_waker(&w);
+                                let tx = senders[i].as_mut().unwrap();
+                                let ready = matches!(Pin::new(&mut *tx).poll_ready(&mut cx), Poll::Ready(Ok(())));
+                                let r = Pin::new(&mut *tx).start_send(v);
+                                let flushed = matches!(Pin::new(&mut *tx).poll_flush(&mut cx), Poll::Ready(Ok(())));
+                                if !ready || !flushed {
+                                    out.push_str("?sink-not-ready-or-not-flushed:");
+                                }
+                                r
+                            } else {
+                                senders[i].as_ref().unwrap().send(v)
+                            };
+                            match r {
+                                Ok(()) => out.push_str("ok"),
+                                Err(e) => {
+                                    assert_eq!(e.into_inner(), v, "SendError returns the message");
+                                    out.push_str("er")
+                                }
                             }
-                        },
+                        }
                         b'c' => {
                             let s = senders[i].as_ref().unwrap().clone();
                             senders.push(Some(s));
                             out.push('-');
                         }
                         b'd' => {
+                            if sink {
+                                let w = wk.get(0).clone();
+                                let mut cx = Context::from_waker(&w);
+                                if !matches!(Pin::new(senders[i].as_mut().unwrap()).poll_close(&mut cx), Poll::Ready(Ok(()))) {
+                                    out.push_str("?poll-close:");
+                                }
+                            }
                             drop(senders[i].take());
                             out.push('-');
                         }
@@ -135,7 +166,13 @@ fn run16(toks: &[&str], wk: &mut Wakers, out: &mut String, mut tok_end: impl FnM
                 Some(r) => {
                     let w = wk.get(num(t)).clone();
                     let mut cx = Context::from_waker(&w);
-                    match Pin::new(r).poll_next(&mut cx) {
+                    let res = if sink {
+                        let mut fut = Box::pin(r.recv());
+                        fut.as_mut().poll(&mut cx)
+                    } else {
+                        Pin::new(r).poll_next(&mut cx)
+                    };
+                    match res {
                         Poll::Pending => out.push('P'),
                         Poll::Ready(None) => out.push('N'),
                         Poll::Ready(Some(v)) => write!(out, "I{}", v).unwrap(),
@@ -162,6 +199,13 @@ fn run16(toks: &[&str], wk: &mut Wakers, out: &mut String, mut tok_end: impl FnM
         let s = out[start..].to_string();
         tok_end(&s);
     }
+}
+
+fn c16sink(line: &str, wk: &mut Wakers) -> String {
+    let toks: Vec<&str> = line.split_whitespace().collect();
+    let mut out = String::new();
+    run16v(&toks, wk, &mut out, |_| {}, true);
+    out
 }
 
 fn c16(line: &str, wk: &mut Wakers) -> String {
@@ -438,6 +482,7 @@ fn main() {
     let mode = std::env::args().nth(1).expect("mode");
     let f: fn(&str, &mut Wakers) -> String = match mode.as_str() {
         "c16" => c16,
+        "c16sink" => c16sink,
         "sweep16" => sweep16,
         "c17" => c17,
         "sweep17" => sweep17,
